@@ -446,3 +446,75 @@ func ruleF9(c *Ctx) {
 var f9Exceptions = map[string]string{
 	"fun.Producer.GenerateParallel": "the option-validation error is reported through the handler before any worker exists",
 }
+
+// ---------------------------------------------------------------- D1s / D3s  (ers.Stack)
+
+// ruleStackNode: ers.Stack is a persistent list whose head carries the count.
+// Only the head's count is meaningful (nodes behind the head are pushed-down
+// copies with count 0), so a node is never stored over a head wholesale, and
+// every store to err/next on a head is accompanied by the count update.
+func ruleStackNode(c *Ctx) {
+	R := c.R
+	p := c.P
+	R.Rule("D1s", "no whole-node store `*p = …` into an ers.Stack (the count of the head is derived by pushing, never copied from another node: nodes behind a head carry count 0)", 1)
+	R.Rule("D3s", "a function that stores err or next of an ers.Stack head also updates its count in the same block", 1)
+	stores := 0
+	for _, f := range p.FuncsIn("ers", "erc") {
+		info := f.Info()
+		n := 0
+		walkNoLit(f.Body, func(x ast.Node) bool {
+			as, ok := x.(*ast.AssignStmt)
+			if !ok {
+				return true
+			}
+			for _, l := range as.Lhs {
+				if st, ok := ast.Unparen(l).(*ast.StarExpr); ok {
+					if tv, ok := info.Types[st.X]; ok && typeIs(tv.Type, "ers", "Stack") {
+						n++
+						R.Fail("D1s", fmt.Sprintf("%s/store(*%s)#%d", f.Name, exprStr(st.X), n), p.Position(as.Pos()),
+							fmt.Sprintf("%s overwrites a Stack node wholesale (%s = %s): the count travels with the copied node — adopting a node from behind another stack's head installs count 0, so Resolve/Len/Join report no error although errors are linked", f.Name, exprStr(l), exprStr(as.Rhs[0])))
+					}
+				}
+				se, ok := ast.Unparen(l).(*ast.SelectorExpr)
+				if !ok || (se.Sel.Name != "err" && se.Sel.Name != "next") {
+					continue
+				}
+				tv, ok := info.Types[se.X]
+				if !ok || !typeIs(tv.Type, "ers", "Stack") {
+					continue
+				}
+				stores++
+				// the enclosing block updates count
+				blk, _ := p.Parent(as).(*ast.BlockStmt)
+				var list []ast.Stmt
+				if blk != nil {
+					list = blk.List
+				} else if cc, ok := p.Parent(as).(*ast.CaseClause); ok {
+					list = cc.Body
+				}
+				counted := false
+				for _, s := range list {
+					switch t := s.(type) {
+					case *ast.IncDecStmt:
+						if cs, ok := ast.Unparen(t.X).(*ast.SelectorExpr); ok && cs.Sel.Name == "count" && exprStr(cs.X) == exprStr(se.X) {
+							counted = true
+						}
+					case *ast.AssignStmt:
+						for _, l2 := range t.Lhs {
+							if cs, ok := ast.Unparen(l2).(*ast.SelectorExpr); ok && cs.Sel.Name == "count" && exprStr(cs.X) == exprStr(se.X) {
+								counted = true
+							}
+						}
+					}
+				}
+				R.Check(counted, "D3s", fmt.Sprintf("%s/store(%s)", f.Name, exprStr(l)), p.Position(as.Pos()), "count updated in the same block",
+					fmt.Sprintf("%s stores %s without updating %s.count in the same block", f.Name, exprStr(l), exprStr(se.X)))
+			}
+			return true
+		})
+	}
+	if stores == 0 {
+		R.Fail("D3s", "ers.(*Stack).Push/stores", "-", "no store to Stack.err/next found: the push primitive was restructured")
+	}
+	R.OK("D1s", "ers+erc/no-node-store", "-", "no `*stack = …` store in packages ers and erc")
+}
